@@ -124,7 +124,7 @@ SDeliver ==
 
 SWire ==
   /\ mode = "strict" /\ IsEv("wire") /\ Rec.c \in DOMAIN conn
-  /\ \/ Send(Rec.c) \/ SendBlocked(Rec.c) \/ InitWrite(Rec.c, "ok") \/ InitWrite(Rec.c, "blocked")
+  /\ \/ Send(Rec.c) \/ SendBlocked(Rec.c, "direct") \/ SendBlocked(Rec.c, "queued") \/ InitWrite(Rec.c, "ok") \/ InitWrite(Rec.c, "blocked")
   /\ RegAgrees
   /\ q' = FALSE /\ Consume
 
